@@ -32,6 +32,23 @@ Theorem C03_gross_missing : forall flo fhi s x, gross_pt flo fhi s x = MISSING <
 Proof. exact gross_pt_missing. Qed.
 Print Assumptions C03_gross_missing.
 
+(* the four cases are exhaustive: gross_range_test never answers UNKNOWN, and never SUSPECT when no
+   suspect span is given; valid_range_test answers GOOD, FAIL or MISSING only *)
+Theorem C03_gross_alphabet : forall flo fhi s x,
+  gross_pt flo fhi s x = GOOD \/ gross_pt flo fhi s x = SUSPECT \/
+  gross_pt flo fhi s x = FAIL \/ gross_pt flo fhi s x = MISSING.
+Proof. exact gross_pt_alphabet. Qed.
+Print Assumptions C03_gross_alphabet.
+
+Theorem C03_gross_without_suspect : forall flo fhi x, gross_pt flo fhi None x <> SUSPECT.
+Proof. exact gross_pt_without_suspect. Qed.
+Print Assumptions C03_gross_without_suspect.
+
+Theorem C03_valid_alphabet : forall lo hi si ei x,
+  valid_pt lo hi si ei x = GOOD \/ valid_pt lo hi si ei x = FAIL \/ valid_pt lo hi si ei x = MISSING.
+Proof. exact valid_pt_alphabet. Qed.
+Print Assumptions C03_valid_alphabet.
+
 (* the two numbers of a span may be given in either order *)
 Theorem C03_gross_swap_fail : forall a b ss xs, gross_model [a; b] ss xs = gross_model [b; a] ss xs.
 Proof. intros. rewrite !gross_refines. apply gross_swap_fail. Qed.
